@@ -23,6 +23,43 @@ ASSUMPTIONS = ["PluginRegistry::create returns a new object on every call"]
 KEY = "cgroup.absolutePath()"
 
 
+def instance_keeps_order(ctx):
+    """The per-cgroup instance is built from the template's detector groups and actions IN THE TEMPLATE'S ORDER: each of the two fresh
+    vectors is filled by pushes that all sit in one forward walk over the template's vector, exactly one push per completed iteration,
+    appended at the back.  (Actions run in configured order until one stops the chain, and the first firing detector group names the
+    action context: an instance that reorders either behaves differently from the ruleset that was configured - shared by C02 and C11.)"""
+    P = ctx.prog
+    rg = ctx.fn1("Oomd::Engine::Ruleset::registerRunnableRulesetForCgroupPath")
+    ctx.use(rg)
+    for local, field in (("action_group", "this->action_group_"), ("detector_groups", "this->detector_groups_")):
+        pushes = [i for i in rg.calls("emplace_back", "push_back", "insert", "emplace", "push_front", "emplace_front") if rg.text(rg.nodes[i].get("recv", -1)) == local]
+        if not pushes:
+            ctx.broken("instance-keeps-order:" + local, "anchor", rg.loc(), "no insertion into the local vector '%s' (renamed?)" % local)
+            continue
+        lps = [l for l in loops(rg) if (loop_walk(rg, l) or {}).get("container") == field]
+        ok = len(lps) == 1 and loop_walk(rg, lps[0])["dir"] == "forward" and all(rg.nodes[i].get("cname") in ("emplace_back", "push_back") for i in pushes)
+        why = ""
+        if not ok:
+            why = "%d loops over %s; insertions by %s" % (len(lps), field, sorted({rg.nodes[i].get("cname") for i in pushes}))
+        if ok:
+            L = lps[0]
+            outside = [i for i in pushes if L["stmt"] not in list(rg.ancestors(i))]
+            if outside:
+                ok, why = False, "an insertion at %s is outside the walk over %s" % (rg.loc(outside[0]), field)
+        if ok:
+            fl = iter_flow(ctx, rg, L, {i: [("set", "pushed")] for i in pushes})
+            for b in back_sources(L):
+                parts = fl.OUT.get(b)
+                if parts is not None and not all("pushed" in st.must for st in parts.values()):
+                    ok, why = False, "an iteration over %s can complete without appending its element (it is appended later or not at all)" % field
+            for i in pushes:
+                if fl.may(i, "pushed"):
+                    ok, why = False, "an iteration can append twice"
+        ctx.check(ok, "instance-keeps-order:" + local, "loop-shape + per-iteration exactly-once", rg.loc(pushes[0]),
+                  "the instance's %s are appended one per element of %s, in that order" % (local, field),
+                  "the instance's %s do not keep the configured order: %s" % (local, why))
+
+
 def run(ctx):
     # locals / parameters the rules below refer to by name (a rename makes the analysis 'broken', never a violation)
     ctx.anchor(ctx.fn1('Oomd::Engine::Ruleset::runOnce'), 'cgroup', 'visited', 'maybeHasXattr', 'cgroupfd', 'context')
@@ -199,6 +236,7 @@ def run(ctx):
                   "instances are prerun whenever the ruleset is enabled", "instance prerun is conditioned on %s" % extra)
 
     init_results_checked(ctx, "C11")
+    instance_keeps_order(ctx)
     # ---- instance creation: fresh plugins, cgroup default, keyed insert
     rg = ctx.fn1("Oomd::Engine::Ruleset::registerRunnableRulesetForCgroupPath")
     X = Expander(P, rg)
